@@ -30,7 +30,8 @@ func c08Faults() []fault {
 	add("CInvalidArity", true, "abs()", "abs(a, b)", "length()", "length(a, b, c)", "contains(a)", "contains(a, b, c)", "join(a)", "sort_by(a)", "sort_by(a, &b, &c)",
 		"map(&a)", "merge()", "not_null()", "zip()", "pad_left(a)", "pad_left(a, b, c, d)", "replace(a, b)", "replace(a, b, c, d, e)", "find_first(a)", "find_first(a, b, c, d, e)",
 		"trim()", "trim(a, b, c)", "split(a)", "split(a, b, c, d)", "to_number()", "type(a, b)", "group_by(a)", "max_by(a)", "min_by(a, &b, c)")
-	add("CUnknownFunction", true, "foo(a)", "lenght(a)", "ABS(a)", "to_int(a)", "a.foo(b)", "[foo(a)]", "a[?foo(@)]", "sort_by(a, &foo(@))")
+	add("CUnknownFunction", true, "foo(a)", "lenght(a)", "ABS(a)", "to_int(a)", "a.foo(b)", "[foo(a)]", "a[?foo(@)]", "sort_by(a, &foo(@))",
+		"nosuch()", "now()", "a.nosuch()", "a[*].nosuch()", "a || nosuch()", "sort_by(a, &nosuch())", "[nosuch()]", "nosuch(a, b, c, d, e, f)", "nosuch(&a)", "Abs()", "abs_(a)", "_abs(a)", "sort_By(a, &b)")
 	add("CInvalidType", true, "sort_by(a, b)", "max_by(a, b)", "min_by(a, `1`)", "group_by(a, 'x')", "map(a, b)", "map(b, &a)")
 	add("CInvalidValue", true, "a[::0]", "a[1:2:0]", "[::0]", "a[*][::0]")
 	// the same static faults inside every construct that holds a sub-expression: the category is the fault's
@@ -49,7 +50,9 @@ func c08Faults() []fault {
 		"replace(s, 'a', n)", "trim(n)", "contains(n, `1`)", "from_items(n)", "from_items([`1`])", "items(arr)", "group_by(objs, &n)", "find_first(s, 'a', 'x')", "split(s, ',', 'x')")
 	add("CInvalidValue", false, "pad_left(s, `-1`)", "pad_left(s, `1.5`)", "pad_right(s, `3`, 'ab')", "pad_left(s, `3`, '')", "split(s, ',', `-1`)", "split(s, ',', `0.5`)",
 		"from_items([['a']])", "from_items([[`1`, `2`]])", "from_items([['a', `1`, `2`]])", "find_first(s, 'a', `0.5`)", "find_last(s, 'a', `0`, `1.5`)", "replace(s, 'a', 'b', `1.5`)",
-		"pad_left(s, `1e40`)", "find_first(s, 'a', `99999999999999999999`)")
+		"pad_left(s, `1e40`)", "find_first(s, 'a', `99999999999999999999`)",
+		"pad_left(s, `1e400`)", "pad_right(s, `-1e400`)", "split(s, ',', `1e400`)", "find_last(s, 'a', `-1e400`, `2`)", "replace(s, 'a', 'b', `1e309`)", "find_first(s, 'a', `1e6000`)", "find_first(s, 'a', `0`, `1e999`)",
+		"pad_left(s, `1e-400`)", "pad_left(s, `2.0000000000000000001`)", "split(s, ',', `1e-10`)", "find_first(s, 'a', `0.00000000000000000000000000000000000001`)", "replace(s, 'a', 'b', `9223372036854775808`)", "pad_left(s, `-9223372036854775809`)")
 	add("CNotANumber", false, "n / `0`", "`1` / `0`", "`0` / `0`", "n // `0`", "n % `0`", "`1e6000` * `1e6000`", "`-1e6000` * `1e6000`", "`9e6144` * `10`", "sum([`9e6144`, `9e6144`])")
 	add("CUndefinedVariable", false, "$x", "a | $x", "[$y]", "let $x = `1` in $y", "a[?$z]", "arr[*].[$q]", "let $x = $x in $x")
 	return fs
